@@ -2665,6 +2665,10 @@ impl Connection {
                 self.events.push_back(Event::Connected);
                 self.state = State::Established;
                 trace!("established");
+                // 1-RTT packets sent while still handshaking are exempt from the probe timer; now
+                // that the handshake is complete it must cover them, even if nothing new can be
+                // sent right away (e.g. because the congestion window is full)
+                self.set_loss_detection_timer(now);
                 Ok(())
             }
             Header::Initial(InitialHeader {
